@@ -43,3 +43,33 @@ package verifspec
 //@   param x: u64, y: nat
 //@   ensures val64(result.$high, result.$low) == (y < 64 ? lshr(val64(x.$high, x.$low), y) : 0)
 //@   ensures repHighU(result.$high) && repLow(result.$low)
+
+// ---- $mul64.  Mode jn: numbers are mathematical integers with exactness obligations (|v| <= 2^53) on every + - *.
+// Products of two non-constant terms are the abstract symbol prod(a, b); the only algebra needed is the polynomial
+// identity below, which is proved separately with prod read as true multiplication.
+//
+// mul64mod: if X = xh*2^32 + xl and A = sum a_i 2^(16 i) with X + s*2^64 == A (s = 1 exactly when a negative $high
+// was read as unsigned), likewise Y / B / t, then X*Y and sum_{i,j} a_i b_j 2^(16(i+j)) differ by a multiple of 2^64.
+//@ lemma mul64mod(xh int, xl int, yh int, yl int, a3 int, a2 int, a1 int, a0 int, b3 int, b2 int, b1 int, b0 int, s int, t int)
+//@   interpret prod
+//@   requires xh*4294967296 + xl + s*18446744073709551616 == a3*281474976710656 + a2*4294967296 + a1*65536 + a0
+//@   requires yh*4294967296 + yl + t*18446744073709551616 == b3*281474976710656 + b2*4294967296 + b1*65536 + b0
+//@   ensures prod(xh*4294967296 + xl, yh*4294967296 + yl)
+//@           == prod(a0,b0) + 65536*(prod(a1,b0) + prod(a0,b1)) + 4294967296*(prod(a2,b0) + prod(a1,b1) + prod(a0,b2))
+//@            + 281474976710656*(prod(a3,b0) + prod(a2,b1) + prod(a1,b2) + prod(a0,b3))
+//@            + 18446744073709551616*(prod(a3,b1) + prod(a2,b2) + prod(a1,b3) + 65536*(prod(a3,b2) + prod(a2,b3)) + 4294967296*prod(a3,b3)
+//@                                    - prod(s, b3*281474976710656 + b2*4294967296 + b1*65536 + b0) - prod(t, a3*281474976710656 + a2*4294967296 + a1*65536 + a0) + prod(s,t)*18446744073709551616)
+
+//@ js numeric.js $mul64 int64
+//@ property C06
+//@   param x: i64, y: i64
+//@   hint return: use mul64mod(x.$high, x.$low, y.$high, y.$low, x48, x32, x16, x00, y48, y32, y16, y00, x.$high < 0 ? 1 : 0, y.$high < 0 ? 1 : 0)
+//@   ensures result.$high >= -2147483648 && result.$high <= 2147483647 && result.$low >= 0 && result.$low <= 4294967295
+//@   ensures (result.$high*4294967296 + result.$low - prod(x.$high*4294967296 + x.$low, y.$high*4294967296 + y.$low)) % 18446744073709551616 == 0
+
+//@ js numeric.js $mul64 uint64
+//@ property C06
+//@   param x: u64, y: u64
+//@   hint return: use mul64mod(x.$high, x.$low, y.$high, y.$low, x48, x32, x16, x00, y48, y32, y16, y00, 0, 0)
+//@   ensures result.$high >= 0 && result.$high <= 4294967295 && result.$low >= 0 && result.$low <= 4294967295
+//@   ensures (result.$high*4294967296 + result.$low - prod(x.$high*4294967296 + x.$low, y.$high*4294967296 + y.$low)) % 18446744073709551616 == 0
